@@ -24,6 +24,7 @@ import DSymVerif.Model.LowIndex
 import DSymVerif.Model.Stabilizer
 import DSymVerif.Model.Invariants
 import DSymVerif.Model.Covers
+import DSymVerif.Model.CoversWired
 import DSymVerif.Model.Delaney2d
 import DSymVerif.Generated.Tables
 
@@ -148,8 +149,10 @@ def candGet (c : Candidates) (name : String) : Outcome (List Tab) :=
   | some e => .ok e.2
   | none => .panic
 
-/-- search-node budget for the model of `coset_tables` (the Rust iterator has none) -/
-def nodeFuel : Nat := 50000000
+/-- search-node budget for the model of `coset_tables` (the Rust iterator has none): C12's
+    `searchFuel`, which provably exhausts the search tree (`CanonP.cosetTables_fuel_adequate`); the
+    iterator model stops on the empty stack, so the size of the number costs nothing -/
+def nodeFuel (nrGens maxRows : Nat) : Nat := searchFuel nrGens maxRows
 
 /-- `core_table(&ct)` on views -/
 def coreTab (n : Nat) (ct : Tab) : Outcome Tab :=
@@ -258,7 +261,7 @@ def secondLoop (n : Nat) (cones cones2 cones3 : List (List Int × Nat)) (all : L
 def constructCandidates (fg : FG.FundGroup) : Outcome Candidates :=
   let nrGens := fg.genToEdge.length
   let cones := fg.cones
-  match coreTables nrGens (cosetTables nrGens fg.relators Tables.candidateIndexBound nodeFuel) with
+  match coreTables nrGens (cosetTables nrGens fg.relators Tables.candidateIndexBound (nodeFuel nrGens Tables.candidateIndexBound)) with
   | .ok cts =>
     let cones2 := cones.filter (fun c => c.2 == 2)
     let cones3 := cones.filter (fun c => c.2 == 3)
@@ -364,23 +367,12 @@ def pseudoToroidalCover (s : DSymData) : Outcome (Option DSymData) :=
 
 /-! ### delaney2d::toroidal_cover -/
 
-/-- `covers(ds, max_deg)`: every cover is built before the first is looked at -/
+/-- `covers(ds, max_deg)`: the wired model of C05 (Model/CoversWired.lean: `fundamental_group`,
+    then one `cover_for_table` per table yielded by `coset_tables`, on the model of `CosetTable`
+    itself) with the node budget of this file -/
 def covers (s : DSymData) (maxDeg : Nat) : Outcome (List DSymData) :=
   match FG.fundamentalGroup s with
-  | .ok fg =>
-    let rec tables : List (Outcome Table) → Outcome (List Covers.Table)
-      | [] => .ok []
-      | .ok t :: rest =>
-        (match tables rest with
-         | .ok ts => .ok (tableData t :: ts)
-         | .err => .err
-         | .panic => .panic)
-      | .err :: _ => .err
-      | .panic :: _ => .panic
-    (match tables (cosetTables fg.nrGenerators fg.relators maxDeg nodeFuel) with
-     | .ok ts => Covers.coversOfTables s ts fg.edgeToWord
-     | .err => .err
-     | .panic => .panic)
+  | .ok fg => Covers.covers s maxDeg (nodeFuel fg.nrGenerators maxDeg)
   | .err => .err
   | .panic => .panic
 
@@ -393,6 +385,10 @@ def firstFlat : List DSymData → Outcome DSymData
     | .err => .err
     | .panic => .panic
 
+/-- `orbit_types_2d(ds).iter().map(|&(v, _)| v).max().unwrap_or(1)` -/
+def coverDegree (ts : List (Nat × Bool)) : Nat :=
+  if ts.isEmpty then 1 else ts.foldl (fun m t => max m t.1) 0
+
 /-- `toroidal_cover(ds)` for `ds: &PartialDSym` -/
 def toroidalCover (s : DSymData) : Outcome DSymData :=
   if s.dim ≠ 2 then .panic
@@ -403,9 +399,7 @@ def toroidalCover (s : DSymData) : Outcome DSymData :=
        | .ok oc =>
          (match D2.orbitTypes2d ⟨oc, .partialSym⟩ with
           | .ok ts =>
-            let degree := ts.foldl (fun m t => max m t.1) 0
-            let degree := if ts.isEmpty then 1 else degree
-            (match covers oc degree with
+            (match covers oc (coverDegree ts) with
              | .ok cs => firstFlat cs
              | .err => .err
              | .panic => .panic)
